@@ -454,10 +454,13 @@ func RunMain(id, tier string) int {
 				if hang != "" {
 					st.hangs++
 				}
-				if st.hangs >= 5 {
+				mu.Lock()
+				totalHangs := agg.Hangs
+				mu.Unlock()
+				if st.hangs >= 5 || (hang != "" && totalHangs >= 8) {
 					// every hang costs a full case timeout; the verdict is already decided
 					mu.Lock()
-					agg.Inconclusive = append(agg.Inconclusive, fmt.Sprintf("shard %d: 5 hangs, shard abandoned", s))
+					agg.Inconclusive = append(agg.Inconclusive, fmt.Sprintf("shard %d: abandoned after %d hangs in this shard, %d in the run", s, st.hangs, totalHangs))
 					mu.Unlock()
 					return
 				}
